@@ -249,7 +249,7 @@ func Template(t *rapid.T) Case {
 		}
 		return fmt.Sprintf(where, s)
 	}
-	switch rapid.SampledFrom([]string{"typedef-cycle", "uses-cycle", "identity-cycle", "include-cycle", "import-cycle", "cross-module-typedef-cycle", "cross-module-uses-cycle", "absent", "lone-submodule", "bad-augment", "bad-deviation", "duplicates", "numbers", "leafref-union-cycle", "choice-case-oddities", "fan-in", "header-mix", "long-chain", "enum-unions", "prefix-run", "error-budget"}).Draw(t, "template") {
+	switch rapid.SampledFrom([]string{"typedef-cycle", "uses-cycle", "identity-cycle", "include-cycle", "import-cycle", "cross-module-typedef-cycle", "cross-module-uses-cycle", "absent", "lone-submodule", "bad-augment", "bad-deviation", "duplicates", "numbers", "leafref-union-cycle", "choice-case-oddities", "fan-in", "header-mix", "long-chain", "enum-unions", "prefix-run", "error-budget", "bits-sharing-a-position"}).Draw(t, "template") {
 	case "typedef-cycle":
 		var b strings.Builder
 		for i := 0; i < n; i++ {
@@ -417,6 +417,16 @@ func Template(t *rapid.T) Case {
 		c.Files = append(c.Files, mod("m", fmt.Sprintf("leaf a { type decimal64 { fraction-digits %s; range %s; } } leaf b { type enumeration { enum x { value %s; } enum y; } } leaf c { type bits { bit x { position %s; } bit y; } } leaf-list d { type string { length %s; } min-elements %s; max-elements %s; } list e { key k; leaf k { type string; } min-elements %s; max-elements %s; } leaf f { type uint64 { range \"%s..%s | %s\"; } } leaf g { type int8 { range %s; } default %s; }", q, q, q, q, q, q, q, q, q, v, v, v, q, q)))
 	case "leafref-union-cycle":
 		c.Files = append(c.Files, mod("m", "leaf a { type leafref { path \"../b\"; } } leaf b { type leafref { path \"../a\"; } } leaf c { type leafref { path \"\"; } } leaf d { type leafref; } typedef u { type union; } leaf e { type u; } leaf f { type union { type union { type union { type f; } } } } leaf g { type identityref; } leaf h { type instance-identifier { require-instance maybe; } } leaf i { type enumeration; } leaf j { type bits; } leaf k { type decimal64; }"))
+	case "bits-sharing-a-position":
+		// goyang accepts several bits on one position; whatever it then answers (names by position, positions by
+		// name) must be the same answer every time
+		k := rapid.IntRange(2, 5).Draw(t, "bits-on-one-position")
+		var b strings.Builder
+		for i := 0; i < k; i++ {
+			fmt.Fprintf(&b, "bit b%d { position %d; } ", i, rapid.SampledFrom([]int{0, 1, 1, 7}).Draw(t, "position"))
+		}
+		b.WriteString("bit auto; ")
+		c.Files = append(c.Files, mod("m", fmt.Sprintf("typedef flags { type bits { %s} } leaf f { type flags; } leaf g { type bits { %s} } leaf u { type union { type flags; type bits { bit x { position 3; } bit y { position 3; } } } }", b.String(), b.String())))
 	case "error-budget":
 		// a text with exactly n lexical faults (invalid escapes), n around the number of errors the reader is
 		// willing to collect and the size of its token queue: in one string, or one per statement, with sound
